@@ -2,10 +2,19 @@
 """Prints the prompt for an independent seeded-change agent for one property."""
 import json, sys
 pid = sys.argv[1]; wt = sys.argv[2]
+rnd = int(sys.argv[3]) if len(sys.argv) > 3 else 1
+import glob, os
+prior = []
+if rnd > 1:
+  for m in sorted(glob.glob(f'/verif/seeded/{pid}/*/meta.json')):
+    try:
+      prior.append(json.load(open(m)).get('summary', ''))
+    except Exception:
+      pass
 for l in open('/verif/properties.jsonl'):
   d = json.loads(l)
   if d['id'] == pid: break
-print(f"""You are helping to evaluate a verification effort for the open-source Python library google/fedjax (a JAX-based library for simulating federated learning). You work ONLY inside your own scratch git worktree of the repository at {wt} (already created for you, checked out at the current HEAD of the repository). Do not read or write anything under /verif or /repo, and do not look for verification machinery anywhere: your work must be independent of it.
+text = (f"""You are helping to evaluate a verification effort for the open-source Python library google/fedjax (a JAX-based library for simulating federated learning). You work ONLY inside your own scratch git worktree of the repository at {wt} (already created for you, checked out at the current HEAD of the repository). Do not read or write anything under /verif or /repo, and do not look for verification machinery anywhere: your work must be independent of it.
 
 Here is a semantic property the library is supposed to satisfy:
 
@@ -25,4 +34,8 @@ For EACH change deliver, under {wt}/_seeded/change1/ and {wt}/_seeded/change2/:
   - meta.json : {{"property": "{pid}", "summary": "<one sentence: what was changed>", "needs": "<what specific input/sequence/fault is needed for the violation to show>", "files": [...], "tests_run": "<which existing tests you ran and their result before/after>"}}
 Leave the worktree's source files UNMODIFIED at the end (git checkout -- fedjax) so that only _seeded/ is new. Verify each demo both ways yourself (unmodified: PASS; with `git apply _seeded/changeN/patch.diff`: FAIL; then revert).
 
-Practical notes: Python is /venv/bin/python (3.12, jax 0.11, numpy 2.x, CPU only). `import fedjax` also imports TensorFlow (slow, ~10 s); set JAX_PLATFORMS=cpu. The machine is heavily shared: run only the test files you need, never the whole suite. There is no network. Keep your final answer short: the two summaries and the paths.""")
+{{PRIOR}}Practical notes: Python is /venv/bin/python (3.12, jax 0.11, numpy 2.x, CPU only). `import fedjax` also imports TensorFlow (slow, ~10 s); set JAX_PLATFORMS=cpu. The machine is heavily shared: run only the test files you need, never the whole suite. There is no network. Keep your final answer short: the two summaries and the paths.""")
+prior_txt = ""
+if prior:
+  prior_txt = ("THIS IS A SECOND ROUND. Simple single-site changes of the following kinds were already produced in an earlier round; do NOT repeat them or close variants of them, and aim for something subtler -- a change that only shows along a multi-step history, under a fault/crash at a particular point, for an unusual-but-valid corner of the input space (extreme but documented parameter values, empty/degenerate structures, rarely used documented options and calling forms, less used public entry points that the property statement also covers), or through two cooperating sites that each look fine alone. You may touch any file of the library, not only the anchored ones, as long as the property above is what breaks:\n" + "".join(f"  - {p}\n" for p in prior) + "\n")
+print(text.replace("{PRIOR}", prior_txt))
